@@ -27,7 +27,7 @@ ASSUMPTIONS = [
 REQUIRED_CLASSES = ["nontrivial", "nothing_inserted", "single_node", "closed", "retracted_handles",
                     "repeated_node", "loop_piece", "deep(>=5_levels)", "lattice", "multi_piece", "hook",
                     "flatness_relative_to_piece", "tiny_scale", "gentle_bow", "midpoint_on_end_node",
-                    "points_as_tuples", "points_as_lists", "far_from_origin"]
+                    "points_as_tuples", "points_as_lists", "far_from_origin", "revisited_node"]
 QUICK_SHARDS = 8
 THOROUGH_SHARDS = 16
 LINE_BUDGET = 3_000_000
@@ -210,6 +210,13 @@ def cases(draw):
         else:
             node = [point(), p, point()]
         nodes.append(node)
+    if n >= 3 and draw(st.integers(0, 5)) == 0:
+        # the path comes back to a corner it has already visited: a later node equal to an earlier one in all three
+        # points (a flag on a pole, a figure eight) - equal values, distinct objects
+        j = draw(st.integers(0, n - 3))
+        k = draw(st.integers(j + 2, n - 1))
+        nodes[k] = [list(h) for h in nodes[j]]
+        tags.add("revisited_node")
     if n >= 2 and draw(st.integers(0, 5)) == 0:
         nodes[-1][1] = list(nodes[0][1])
         tags.add("closed")
@@ -300,10 +307,14 @@ def fixed_cases():
     yield {"nodes": [[[0.0, 0.0], [0.0, 0.0], [100.0, 100.0]], [[0.0, 100.0], [100.0, 0.0], [100.0, 0.0]]],
            "flat": 0.02, "scale": 100.0, "tags": []}
     yield {"nodes": [[[5.0, 5.0], [0.0, 0.0], [5.0, 5.0]]], "flat": 0.1, "scale": 5.0, "tags": []}
+    corner = [[0.0, 10.0], [0.0, 10.0], [0.0, 10.0]]
+    yield {"nodes": [[[0.0, 0.0], [0.0, 0.0], [0.0, 0.0]], [list(h) for h in corner],
+                     [[6.0, 10.0], [8.0, 8.0], [8.0, 4.0]], [list(h) for h in corner]],
+           "flat": 0.05, "scale": 10.0, "tags": ["revisited_node"]}
 
 
 def run(ctx):
-    ctx.exhaustive("fixed-shapes", fixed_cases(), body, "six hand-picked shapes (loop, repeated node, polygon, "
+    ctx.exhaustive("fixed-shapes", fixed_cases(), body, "seven hand-picked shapes (loop, repeated node, polygon, flag revisiting a corner, "
                    "S-curve, cusp, single node)")
     ctx.given("generated", typed_cases(), body, quick=800, thorough=40000)
 
